@@ -14,6 +14,12 @@ const OUTS: &[&str] = &[
 const FEATS: &[&str] = &["a", "a", "b", "b", "c", "あ", "x", "y", "", "ab", "*", "(", ")", "[", "]"];
 
 fn gen_rule(rng: &mut Rng, tag: usize, dirty: bool) -> String {
+    // 1 rule in 14 copies the first k columns: all-'*' pattern, output $1..$k (it truncates longer
+    // entries and shadows every later rule of its section)
+    if rng.chance(1, 14) {
+        let k = 1 + rng.below(4) as usize;
+        return format!("{} {}", vec!["*"; k].join(","), (1..=k).map(|i| format!("${}", i)).collect::<Vec<_>>().join(","));
+    }
     let ncol = 1 + rng.below(4) as usize;
     let mut cols = vec![];
     for _ in 0..ncol {
